@@ -120,3 +120,86 @@ Example ex_corrupt_rejected :
   let '(w1, a) := write_to_file 8 w in
   load_from 8 (new_bt 32) (write_at (fil w1) 71 [N.lxor (nth 71 (fil w1) 0) 1]) a = LErr 4.
 Proof. vm_compute. reflexivity. Qed.
+
+(* ---- one loaded handle written in place several times (OWriteAt: WriteAt without reload) ----
+   load -> insert -> WriteAt -> delete -> WriteAt -> update -> WriteAt -> load.  The record count goes
+   2 -> 3 -> 2: at the second WriteAt the in-memory header is again equal to the header that was loaded,
+   while the header in the file is the one written by the first WriteAt. *)
+Definition wa_cfg : cfg := mkCfg (MLazy 50 false) 8 64.          (* capacity (64-10)/11 = 4 *)
+Definition wa_ops : list op :=
+  [OInsert [97] 1; OInsert [98] 2; OStoreLoad;       (* a loaded handle with two records *)
+   OInsert [99] 3; OWriteAt;                         (* three records, written in place *)
+   ODelete [99]; OWriteAt;                           (* two records again, second write on the same handle *)
+   OUpdate [97] 9; OWriteAt;                         (* update only: header bytes unchanged *)
+   OSearch [97]; OHas [99]].
+
+Lemma wa_cfg_ok : cfg_ok wa_cfg.
+Proof. apply cfg_ok_intro; [right; right; right; reflexivity| | |]; le_compute. Qed.
+Lemma wa_addr_ok k : addr_ok wa_cfg (firstn k wa_ops).
+Proof.
+  do 12 (destruct k as [|k]; [le_compute|]). le_compute.
+Qed.
+
+Example wa_results :
+  snd (run wa_cfg wa_ops)
+  = [ROk; ROk; ROk; ROk; ROk; ROk; ROk; ROk; ROk; RFound [9;0;0;0;0;0;0;0]; RBool false].
+Proof. vm_compute. reflexivity. Qed.
+
+(* the handle is the same object across the three writes: its loaded addresses never change and the
+   lazy counters of the object survive (PendingDeletes = 1 from the lazy delete; a reload would reset it) *)
+Example wa_same_handle :
+  let w3 := fst (run wa_cfg (firstn 3 wa_ops)) in
+  let w9 := fst (run wa_cfg (firstn 9 wa_ops)) in
+  loaded_hdr (bt w9) = loaded_hdr (bt w3) /\ loaded_leaf (bt w9) = loaded_leaf (bt w3) /\ next w9 = next w3
+  /\ loaded_hdr (bt w3) = 128 /\ loaded_leaf (bt w3) = 64
+  /\ option_map lz_pending (lazy (bt w9)) = Some 1 /\ option_map lz_nodes (lazy (bt w9)) = Some 1.
+Proof. vm_compute. repeat split; reflexivity. Qed.
+
+(* after each of the three in-place writes, LoadFromFile of the file at the loaded header address gives
+   the in-memory index: records, counts, header, addresses (everything but the lazy state) *)
+Example wa_image_after_each_write :
+  Forall (fun k =>
+    let w := fst (run wa_cfg (firstn k wa_ops)) in
+    load_from 8 (new_bt 64) (fil w) (loaded_hdr (bt w)) = LOk (strip_bt (bt w))
+    /\ h_nroot (header (bt w)) = N.of_nat (List.length (recs (bt w)))) [3; 5; 7; 9]%nat.
+Proof. repeat constructor; vm_compute; reflexivity. Qed.
+
+(* ... as the general theorem says (its hypotheses are satisfiable: instance for the second write) *)
+Example wa_image_by_theorem :
+  let w := fst (run wa_cfg (firstn 7 wa_ops)) in
+  load_from 8 (new_bt 64) (fil w) (loaded_hdr (bt w)) = LOk (with_lazy (bt w) None).
+Proof.
+  exact (image_after_write wa_cfg (firstn 6 wa_ops) OWriteAt (new_bt 64) wa_cfg_ok (wa_addr_ok 7)
+           eq_refl ltac:(vm_compute; reflexivity)).
+Qed.
+
+(* the final load reproduces exactly the live keys with their latest values: a -> 9, b -> 2 *)
+Example wa_final_load :
+  let w := fst (run wa_cfg wa_ops) in
+  match load_from 8 (new_bt 64) (fil w) (loaded_hdr (bt w)) with
+  | LOk s' => recs s' = recs (bt w) /\ h_nroot (header s') = 2 /\ h_total (header s') = 2
+              /\ search_record s' [97] = Some [9;0;0;0;0;0;0;0] /\ search_record s' [98] = Some [2;0;0;0;0;0;0;0]
+              /\ has_key s' [99] = false
+  | LErr _ => False
+  end.
+Proof. vm_compute. repeat split; reflexivity. Qed.
+
+(* what the theorem excludes: if the second WriteAt rewrote the leaf but left the header of the first
+   WriteAt in the file (record count 3), the image would not load: the header asks for 3 records, the leaf
+   checksum sits after 2 *)
+Example wa_stale_header_would_not_load :
+  let w := fst (run wa_cfg (firstn 6 wa_ops)) in
+  let f := write_at (fil w) (loaded_leaf (bt w)) (encode_leaf (bt w)) in
+  load_from 8 (new_bt 64) f (loaded_hdr (bt w)) = LErr 4.
+Proof. vm_compute. reflexivity. Qed.
+
+(* WriteToFile on a loaded handle (OStore) does not move the handle: a following WriteAt still goes to the
+   loaded addresses, and both images load *)
+Example wa_store_keeps_loaded_addresses :
+  let w := fst (run wa_cfg [OInsert [97] 1; OStoreLoad; OInsert [98] 2; OStore; ODelete [97]; OWriteAt]) in
+  loaded_hdr (bt w) = 128 /\ loaded_leaf (bt w) = 64 /\ h_root (header (bt w)) = 64
+  /\ match load_from 8 (new_bt 64) (fil w) 128, load_from 8 (new_bt 64) (fil w) 230 with
+     | LOk s1, LOk s2 => hashes (recs s1) = [jenkins [98]] /\ List.length (recs s2) = 2%nat /\ h_root (header s2) = 166
+     | _, _ => False
+     end.
+Proof. vm_compute. repeat split; reflexivity. Qed.
